@@ -189,7 +189,7 @@ def runParse (cfg : Cfg) (args : List String) : String × String :=
         | none => ("PANIC", refStr (Spec.refParse cfg ty.s2 true true bs))
         | some (.error e) => (parseErrStr e, refStr (Spec.refParse cfg ty.s2 true true bs))
         | some (.ok (d, idx)) =>
-          (s!"OK {d.norm.log.toNat} {hx d.norm.blockHash1} {hx d.norm.blockHash2} {idx} v={b2s (DH.isValid ty.s2 d)} r1={hx d.rle1} r2={hx d.rle2}",
+          (s!"OK {d.norm.log.toNat} {hx d.norm.blockHash1} {hx d.norm.blockHash2} {idx} v={b2s (DH.isValid ty.s2 d)} fe={b2s (DH.freshEq ty.s2 d)}",
            refStr (Spec.refParse cfg ty.s2 true true bs))
       else
         match FH.parse cfg ty.s2 ty.norm bs with
